@@ -120,10 +120,10 @@ theorem setSeed_nv (c : Cfg) (s : Nat) (o : Obj) : (setSeed c s o).1.nv = o.nv :
   unfold setSeed; simp only []; rw [getHShelf_nv]
 
 theorem mkNew_seed (c : Cfg) (s : Nat) (nv : NV) : (mkNew c s nv).1.seed = s := by
-  unfold mkNew; simp only []; rw [buildShelf_seed]
+  unfold mkNew; cases c.mask <;> simp [buildShelf_seed, newObj0]
 
 theorem mkNew_nv (c : Cfg) (s : Nat) (nv : NV) : (mkNew c s nv).1.nv = nv := by
-  unfold mkNew; simp only []; rw [buildShelf_nv]
+  unfold mkNew; cases c.mask <;> simp [buildShelf_nv, newObj0]
 
 /-! ### histories -/
 
@@ -232,7 +232,7 @@ theorem setSeed_seedV (c : Cfg) (s : Nat) (o : Obj) : (setSeed c s o).1.seedV = 
   unfold setSeed; simp only []; rw [getHShelf_seedV]
 
 theorem mkNew_seedV (c : Cfg) (s : Nat) (nv : NV) : (mkNew c s nv).1.seedV = 2024 := by
-  unfold mkNew; simp only []; rw [buildShelf_seedV]
+  unfold mkNew; cases c.mask <;> simp [buildShelf_seedV, newObj0]
 
 theorem step_seedV (c : Cfg) (t : Trace) (a : Act) :
     (step run c t a).obj.seedV = seedVAfter t.obj.seedV [a] := by
@@ -284,7 +284,7 @@ theorem setSeed_cfgId (c : Cfg) (s : Nat) (o : Obj) : (setSeed c s o).1.cfgId = 
   unfold setSeed; simp only []; rw [getHShelf_cfgId]
 
 theorem mkNew_cfgId (c : Cfg) (s : Nat) (nv : NV) : (mkNew c s nv).1.cfgId = 0 := by
-  unfold mkNew; simp only []; rw [buildShelf_cfgId]
+  unfold mkNew; cases c.mask <;> simp [buildShelf_cfgId, newObj0]
 
 theorem step_cfgId (c : Cfg) (t : Trace) (a : Act) :
     (step run c t a).obj.cfgId = cfgAfter t.obj.cfgId [a] := by
@@ -382,28 +382,95 @@ theorem buildShelf_cfg (c c' : Cfg) (hc : c.sigmaPos = c'.sigmaPos) (o : Obj) :
     buildShelf c o = buildShelf c' o := by
   unfold buildShelf; rw [hc]
 
-theorem step_cfg (c c' : Cfg) (hc : c.sigmaPos = c'.sigmaPos) (t : Trace) (a : Act) :
-    step run c t a = step run c' t a := by
+/-- the fields of a trace that do not hold the storage mask -/
+def core (t : Trace) : Obj × List (List Ev) × List Sched × List (Nat × Nat) × List Nat :=
+  (t.obj, t.evs, t.scheds, t.xis, t.cfgs)
+
+theorem step_core (c c' : Cfg) (hc : c.sigmaPos = c'.sigmaPos) (l l' : List Nat)
+    (hm : c.mask = .det l) (hm' : c'.mask = .det l') (t t' : Trace) (ht : core t = core t') (a : Act) :
+    core (step run c t a) = core (step run c' t' a) := by
   have hb : buildShelf c = buildShelf c' := funext (buildShelf_cfg c c' hc)
   have hg : getHShelf c = getHShelf c' := by funext o; unfold getHShelf; rw [hb]
-  have hm : buildMatrices c = buildMatrices c' := by funext o; unfold buildMatrices; rw [hb]
-  have hi : getHInt c = getHInt c' := by funext o; unfold getHInt; rw [hm]
+  have hmx : buildMatrices c = buildMatrices c' := by funext o; unfold buildMatrices; rw [hb]
+  have hi : getHInt c = getHInt c' := by funext o; unfold getHInt; rw [hmx]
   have hs : setSeed c = setSeed c' := by funext s o; unfold setSeed; rw [hg]
-  have hn : mkNew c = mkNew c' := by funext s nv; unfold mkNew; rw [hb]
+  have hn : mkNew c = mkNew c' := by funext s nv; unfold mkNew; rw [hb, hm, hm']
   have hr : run c = run c' := by funext o; unfold run; rw [hi, hb, hg]
-  cases a <;> simp only [step, hs, hn, hm, hr, hg, hi]
+  simp only [core, Prod.mk.injEq] at ht
+  obtain ⟨h1, h2, h3, h4, h5⟩ := ht
+  cases a <;> simp [core, step, hs, hn, hmx, hr, hg, hi, h1, h2, h3, h4, h5]
 
-/-- **record_independent**: the whole trace of a history — generator events, draw
-schedules and final object state — is the same for every deterministic storage
-selection `m`. -/
-theorem record_independent (c : Cfg) (m : List Nat) (h : List Act) :
-    exec { c with mask := m } h = exec c h := by
-  have hf : step run { c with mask := m } = step run c := by
-    funext t a; exact step_cfg _ _ rfl t a
-  have hd : defaultObj { c with mask := m } = defaultObj c := by
-    unfold defaultObj mkNew; rw [buildShelf_cfg { c with mask := m } c rfl]
+/-- **record_independent**: for deterministic storage selections `l`, `l'` the whole
+history — final object, generator events, draw schedules, vial deviates and
+configurations read — is the same; only the mask each run reads when it writes the
+state matrix differs.  (In the model no transition reads a deterministic mask — that
+is its shape; that the CODE behaves so is what the correspondence check establishes:
+bit-identical statistics across storeStates variants, also with an event in the final
+time step.) -/
+theorem record_independent (c : Cfg) (l l' : List Nat) (h : List Act) :
+    core (exec { c with mask := .det l } h) = core (exec { c with mask := .det l' } h) := by
+  have hd : defaultObj { c with mask := .det l } = defaultObj { c with mask := .det l' } := by
+    unfold defaultObj mkNew
+    simp only []
+    rw [buildShelf_cfg { c with mask := MaskSpec.det l } { c with mask := MaskSpec.det l' } rfl]
   unfold exec execFrom
-  rw [hf, hd]
+  rw [hd]
+  generalize ({ obj := defaultObj { c with mask := MaskSpec.det l' }, evs := [], scheds := [] } : Trace) = t0
+  have key : ∀ (h : List Act) (t t' : Trace), core t = core t' →
+      core (h.foldl (step run { c with mask := .det l }) t) =
+      core (h.foldl (step run { c with mask := .det l' }) t') := by
+    intro h
+    induction h with
+    | nil => intro t t' ht; exact ht
+    | cons a h ih =>
+      intro t t' ht
+      exact ih _ _ (step_core { c with mask := .det l } { c with mask := .det l' } rfl l l' rfl rfl t t' ht a)
+  exact key h t0 t0 rfl
+
+/-- **random_mask_run_canonical**: a `random` storage selection DOES consume draws —
+at construction, on the generator of that moment (`mkNew` appends a `choice` call) —
+yet every run, after any history, uses the canonical schedule of its seed: `run()`
+restarts the generator, so the run's draws are independent of the selection draw. -/
+theorem random_mask_run_canonical (sigmaPos : Bool) (n : Nat) (h : List Act) (s : Nat) :
+    (exec { sigmaPos := sigmaPos, mask := .random n } (h ++ [.setSeed s, .run])).scheds.getLast? =
+      some (canon { sigmaPos := sigmaPos, mask := .det [] } s (nvAfter ⟨7, 7, 1⟩ h)) ∧
+    (mkNew { sigmaPos := sigmaPos, mask := .random n } s ⟨3, 3, 1⟩).2 =
+      (mkNew { sigmaPos := sigmaPos, mask := .det [] } s ⟨3, 3, 1⟩).2 ++ [.call (.choice n)] := by
+  constructor
+  · have e : h ++ [Act.setSeed s, Act.run] = (h ++ [Act.setSeed s]) ++ [Act.run] := by simp
+    rw [exec, e, last_run, seedAfter_append_setSeed, nvAfter_append_setSeed]
+    have hd : (defaultObj { sigmaPos := sigmaPos, mask := MaskSpec.random n }).nv = ⟨7, 7, 1⟩ := mkNew_nv _ 2021 ⟨7, 7, 1⟩
+    rw [hd]
+    unfold canon
+    rfl
+  · unfold mkNew
+    have hb := buildShelf_cfg { sigmaPos := sigmaPos, mask := MaskSpec.random n } { sigmaPos := sigmaPos, mask := MaskSpec.det [] } rfl (newObj0 s ⟨3, 3, 1⟩)
+    simp [hb]
+
+/-- **run_outcome_some**: the `getLast?` statements above are about a run that exists:
+a history that ends with `seed = s; run` has a last schedule, and it is the canonical
+one of `s` and of the shape, vial seed and configuration then in force. -/
+theorem run_outcome_some (c : Cfg) (h : List Act) (s : Nat) :
+    (exec c (h ++ [.setSeed s, .run])).scheds ≠ [] ∧
+    (exec c (h ++ [.setSeed s, .run])).scheds.getLast? = some (canon c s (nvAfter ⟨7, 7, 1⟩ h)) ∧
+    (exec c (h ++ [.setSeed s, .run])).xis.getLast? = some (seedVAfter 2024 h, (nvAfter ⟨7, 7, 1⟩ h).total) ∧
+    (exec c (h ++ [.setSeed s, .run])).cfgs.getLast? = some (cfgAfter 0 h) := by
+  have e : h ++ [Act.setSeed s, Act.run] = (h ++ [Act.setSeed s]) ++ [Act.run] := by simp
+  have hd : (defaultObj c).nv = ⟨7, 7, 1⟩ := mkNew_nv c 2021 ⟨7, 7, 1⟩
+  have hv : (defaultObj c).seedV = 2024 := mkNew_seedV c 2021 ⟨7, 7, 1⟩
+  have hk : (defaultObj c).cfgId = 0 := mkNew_cfgId c 2021 ⟨7, 7, 1⟩
+  have h2 : (exec c (h ++ [.setSeed s, .run])).scheds.getLast? = some (canon c s (nvAfter ⟨7, 7, 1⟩ h)) := by
+    rw [exec, e, last_run, seedAfter_append_setSeed, nvAfter_append_setSeed, hd]
+  refine ⟨?_, h2, ?_, ?_⟩
+  · intro hnil; rw [hnil] at h2; simp at h2
+  · rw [exec, e, last_xi, seedVAfter_append_setSeed, nvAfter_append_setSeed, hd, hv]
+  · rw [exec, e, last_cfg, cfgAfter_append_setSeed, hk]
+
+/-- before the repair a `random` storage selection shifted the dice of the first run
+(the selection draw sits between the shelf draws and the dice) -/
+theorem old_random_mask_shifts_dice :
+    (execOld { sigmaPos := false, mask := .random 2 } [.new 5 ⟨3, 3, 1⟩, .run]).scheds ≠
+    (execOld { sigmaPos := false, mask := .det [] } [.new 5 ⟨3, 3, 1⟩, .run]).scheds := by decide
 
 /-! ### Snowfall -/
 
